@@ -737,6 +737,15 @@ func planC16(prop string, seed uint64, tier string, idx int) *Plan {
 	}
 	img := g.newImage(-1, -1)
 	art := g.newImage(img, -1)
+	arts := []int{art}
+	if idx%6 == 1 {
+		// listings long enough to be paged: the continuation of one repository's listing is sent to the others
+		g.p.Profile = "isolation + paged referrers"
+		k.RefLimit = int64(g.r.pick(300, 500, 900))
+		for i := 0; i < g.r.between(2, 4); i++ {
+			arts = append(arts, g.newImage(img, -1))
+		}
+	}
 	reserved := []string{"index.json", "oci-layout", "blobs", "a/blobs", "a/index.json/b", "a/oci-layout"}
 	// indexes whose child "digest" is a path out of the repository: to a blob of a sibling, to the sibling's index, to
 	// a file outside the root (the sentinel directory holds every blob of the plan)
@@ -776,6 +785,15 @@ func planC16(prop string, seed uint64, tier string, idx int) *Plan {
 			}
 			g.add(op)
 		case 7:
+			if len(arts) > 1 {
+				for _, a := range arts {
+					if g.r.chance(70) {
+						g.pushManifest(repo, a, "", false)
+					}
+				}
+				g.add(Op{K: "refs", Repo: repo, Obj: img})
+				break
+			}
 			g.pushManifest(repo, g.r.pick(img, art), g.r.str("", "v1", "shared"), false)
 		case 8:
 			// session of one repository used through another
